@@ -168,6 +168,28 @@ def roundtrip(ctx, doc, kind, accepted_by_loader=False):
     return y, l2
 
 
+def qualify_identities(y, module, leaves):
+    """Copy of a YANG-form document in which the values of the identityref leaves carry the module name."""
+    n = [0]
+
+    def walk(o):
+        if isinstance(o, dict):
+            out = {}
+            for k, v in o.items():
+                kk = k.split(':')[-1]
+                if kk in leaves and isinstance(v, str) and ':' not in v:
+                    out[k] = f'{module}:{v}'
+                    n[0] += 1
+                else:
+                    out[k] = walk(v)
+            return out
+        if isinstance(o, list):
+            return [walk(x) for x in o]
+        return o
+    out = walk(deepcopy(y))
+    return out if n[0] else None
+
+
 def compare_docs(ctx, doc, l2, kind, allowed_extra=()):
     c = Cmp(ctx, kind)
     c.walk(doc, l2, [])
@@ -463,6 +485,24 @@ def run_topology(ctx):
     if rt is None:
         return
     y, l2 = rt
+    # the same YANG document with its identity values written in the qualified form (module name in front, RFC 7951
+    # 6.8 allows both): it is valid and it means the same
+    yq = qualify_identities(y, 'gnpy-network-topology', ('type', 'length_units', 'propagation_direction'))
+    if yq is not None:
+        try:
+            load_data(json.dumps(yq))
+            ok = True
+        except Exception as e:  # noqa
+            ok = False
+            ctx.skip(f'qualified-identities-not-valid:{type(e).__name__}')
+        if ok:
+            ctx.count('qualified_identity_documents')
+            lq = yang_to_legacy(deepcopy(yq))
+            if lq != l2:
+                cq = Cmp(ctx, 'topology')
+                cq.walk(l2, lq, [])
+                ctx.violation('qualified-identities', 'topology: the YANG document with qualified identity values '
+                              f'converts to another legacy document than with bare ones: {cq.first}')
     c = compare_docs(ctx, tj, l2, 'topology')
     x2, n2 = export_of(l2, equipment)
     ctx.count('loader_equivalence_checks')
